@@ -3,6 +3,9 @@ import LdkModel.Proofs.TlvFrame
 import LdkModel.Generated.TlvSchemas
 import LdkModel.Generated.TlvFieldPairs
 import LdkModel.Generated.EnumCodecs
+import LdkModel.Generated.SerPrims
+import LdkModel.Generated.Positional
+import LdkModel.Proofs.SerPrims
 /-!
   C12 — persisted objects survive serialization unchanged: the FRAMING theorems.
 
@@ -493,5 +496,164 @@ theorem ver_prefixes_self_readable : ∀ p ∈ generatedVerPrefixes, ∀ rest : 
   obtain ⟨a, b, c⟩ := h p hp
   exact ver_prefix_accepts_current _ _ _ a b c rest
 example : generatedVerPrefixes.length ≥ 5 := by decide
+
+/-! ## the length / integer primitives every persisted collection is written with — TRANSLATED from util/ser.rs
+
+  `Generated/SerPrims.lean` is regenerated on every check from `impl Writeable / Readable for CollectionLength`, `for BigSize` and the
+  HighZeroBytesDroppedBigSize reader of `impl_writeable_primitive!` (comparisons, escape / tag constants, widths).  The theorems
+  below are about THOSE functions; `*_matches_source` additionally identifies them with the hand-written mirrors of Model/Codec.lean,
+  so every Codec theorem (C13) and every frame theorem above talks about the boundaries the source has today.  C12-r4
+  (`if self.0 < 0xffff` -> `<= u16::MAX`: a collection of exactly 65535 entries written as the bare escape marker) breaks
+  `collection_length_matches_source` and `collection_length_roundtrip_source`. -/
+
+/-- the CollectionLength writer / reader of the current source are the `CollLen.encode` / `CollLen.decode` of Model/Codec.lean -/
+theorem collection_length_matches_source :
+    (∀ n, SerPrims.collLenEncode n = CollLen.encode n) ∧ (∀ b, SerPrims.collLenDecode b = CollLen.decode b) :=
+  ⟨SerPrims.collLenEncode_eq, SerPrims.collLenDecode_eq⟩
+example : SerPrims.collLenEncode 65534 = [0xff, 0xfe] ∧ SerPrims.collLenEncode 65535 = [0xff, 0xff, 0, 0, 0, 0, 0, 0, 0, 0] ∧
+    SerPrims.collLenEncode 65536 = [0xff, 0xff, 0, 0, 0, 0, 0, 0, 0, 1] := by decide
+
+/-- every collection size a `u64` can hold is read back from what the current source writes for it, whatever follows:
+    a Vec / HashMap / String / byte blob of ANY length (65535 included) announces its own length correctly -/
+theorem collection_length_roundtrip_source (n : Nat) (h : n < 2 ^ 64) (r : Bytes) :
+    SerPrims.collLenDecode (SerPrims.collLenEncode n ++ r) = .ok (n, r) := by
+  rw [SerPrims.collLenEncode_eq, SerPrims.collLenDecode_eq]; exact collLen_roundtrip n h r
+example : SerPrims.collLenDecode (SerPrims.collLenEncode 65535 ++ [7]) = .ok (65535, [7]) := by decide
+example : SerPrims.collLenDecode [0xff, 0xff, 1, 2] = .error .ShortRead := by decide   -- the bare marker is NOT a length
+
+/-- the BigSize writer / reader of the current source (match ranges, tags, widths, non-minimality comparisons) are the
+    `BigSize.encode` / `BigSize.decode` of Model/Codec.lean -/
+theorem bigsize_matches_source :
+    (∀ n, SerPrims.bigSizeEncode n = BigSize.encode n) ∧ (∀ b, SerPrims.bigSizeDecode b = BigSize.decode b) :=
+  ⟨SerPrims.bigSizeEncode_eq, SerPrims.bigSizeDecode_eq⟩
+example : SerPrims.bigSizeEncode 0xfc = [0xfc] ∧ SerPrims.bigSizeEncode 0xfd = [0xfd, 0, 0xfd] ∧
+    SerPrims.bigSizeEncode 0xffff = [0xfd, 0xff, 0xff] ∧ SerPrims.bigSizeEncode 0x10000 = [0xfe, 0, 1, 0, 0] := by decide
+
+/-- every TLV type / length a `u64` can hold round-trips through the BigSize of the current source -/
+theorem bigsize_roundtrip_source (n : Nat) (h : n < 2 ^ 64) (r : Bytes) :
+    SerPrims.bigSizeDecode (SerPrims.bigSizeEncode n ++ r) = .ok (n, r) := by
+  rw [SerPrims.bigSizeEncode_eq, SerPrims.bigSizeDecode_eq]; exact bigsize_roundtrip' n h r
+example : SerPrims.bigSizeDecode (SerPrims.bigSizeEncode 0x10000 ++ [9]) = .ok (0x10000, [9]) := by decide
+
+/-- … and the reader of the current source accepts minimal encodings only (one byte string per value) -/
+theorem bigsize_minimal_source (b r : Bytes) (n : Nat) (h : SerPrims.bigSizeDecode b = .ok (n, r)) :
+    b = SerPrims.bigSizeEncode n ++ r ∧ n < 2 ^ 64 := by
+  rw [SerPrims.bigSizeDecode_eq] at h; rw [SerPrims.bigSizeEncode_eq]; exact bigsize_minimal' h
+example : SerPrims.bigSizeDecode [0xfd, 0x00, 0xfc] = .error .InvalidValue := by decide
+
+/-- the HighZeroBytesDroppedBigSize reader of the current source (accept condition `total_read_len == 0 || buf[$len] != 0`, the
+    `first_byte` offset into the zero-padded buffer) is the `hzd` case of `FieldTy.decode` -/
+theorem hzd_read_matches_source (len : Nat) (b : Bytes) :
+    (FieldTy.hzd len).decode b = (SerPrims.hzdDecode len b).map (fun p => (Val.nat p.1, p.2)) :=
+  SerPrims.hzdDecode_eq len b
+example : SerPrims.hzdDecode 8 [1, 0] = .ok (256, []) ∧ SerPrims.hzdDecode 8 [0, 1] = .error .InvalidValue ∧
+    SerPrims.hzdDecode 8 [] = .ok (0, []) := by decide
+
+/-- the byte widths of `impl_writeable_primitive!` are the widths of the types -/
+theorem prim_widths_exact : SerPrims.primWidths =
+    [("u128", 16), ("u64", 8), ("u32", 4), ("u16", 2), ("i64", 8), ("i32", 4), ("i16", 2), ("i8", 1)] := by decide
+
+/-! ## positional (non-TLV) prefixes: writer and reader agree POSITION BY POSITION
+
+  `positionalSteps` (Generated/Positional.lean, tools/gen_positional.py, re-extracted on every check): the top-level statements of
+  `FundedChannel::write / read`, `ChannelManager::write / ChannelManagerData::read`, `write_chanmon_internal / ChannelMonitor::read`
+  that touch the stream, in source order, from the version prefix to the TLV block.  Unlike `positional_common_exact` (common
+  subsequence of NAMES) the comparison is by POSITION: two adjacent same-typed values swapped on one side — e.g. the holder and the
+  counterparty commitment numbers of a channel, which no type check and no TLV rule can tell apart — put a name against another
+  name at two positions and break `positional_steps_agree`. -/
+
+/-- steps that are ONE step on the other side: (object, merges of write steps, merges of read steps), highest index first.
+    ChannelManager: best block (height + hash), the channel / event / background-event / pending-inbound-payment count + loop are
+    each one `{…}` block or a constant `0u64` on the write side.  ChannelMonitor: the funding outpoint (txid + index) and the best
+    block (hash + height) are written as two values and read by one block. -/
+def posMerges : List (String × List (Nat × Nat) × List (Nat × Nat)) := [
+  ("FundedChannel", [], []),
+  ("ChannelManager", [], [(17, 2), (13, 2), (11, 2), (4, 2), (2, 2)]),
+  ("ChannelMonitor", [(36, 2), (9, 2)], [])]
+
+def posAligned : List (String × List PosStep × List PosStep) :=
+  positionalSteps.map fun o =>
+    match posMerges.find? (·.1 == o.1) with
+    | some m => (o.1, mergeSteps o.2.1 m.2.1, mergeSteps o.2.2 m.2.2)
+    | none => o
+
+/-- the three positional prefixes have the same number of steps on both sides, begin with the version prefix and end with the
+    TLV block -/
+theorem positional_steps_framed :
+    posAligned.map (fun o => (o.1, o.2.1.length, posFramed o.2.1 o.2.2)) =
+      [("FundedChannel", 54, true), ("ChannelManager", 17, true), ("ChannelMonitor", 44, true)] := by decide +kernel
+
+/-- at EVERY position the written value and the value read carry the same canonical name, except the positions pinned here one by
+    one: renamed intermediates (`get_value_satoshis()` / `channel_value_satoshis`, `holder_commitment_point.next_transaction_number()` /
+    `holder_commitment_next_transaction_number`, funding scripts), legacy constants written for old readers and discarded (`const` /
+    `dummy` / `val`), and blocks labelled by their loop variable on one side and their count on the other -/
+theorem positional_steps_agree :
+    posAligned.map (fun o => (o.1, posNameMismatches o.2.1 o.2.2)) = [
+      ("FundedChannel",
+        [(2, "const", "val"),                                   -- 8 zero bytes of the pre-0.0.99 config, read and dropped
+         (5, "get_value_satoshi", "channel_value_satoshi"),
+         (9, "next_transaction_number", "holder_commitment_next_transaction_number"),
+         (26, "is_outbound", "pending_update_fee_value"),        -- `if is_outbound { pending_update_fee… }` written by role, one Option<u32> read
+         (32, "const", "?"),                                     -- legacy `0u8` (no longer used OnchainTxHandler flag), reader accepts 0 / 1
+         (39, "counterparty_selected_channel_reserve_satoshi", "dummy"),   -- moved to TLV; positional copy read and dropped
+         (43, "minimum_depth", "dummy"),
+         (45, "channel_transaction_parameter", "channel_parameter")]),
+      ("ChannelManager",
+        [(2, "best_block", "best_block_height"),
+         (4, "forward", "forward_htlc"),
+         (5, "claimable_payment", "claimable_htlc"),
+         (6, "claimable_payment", "claimable_htlc"),
+         (7, "serializable_peer", "peer"),
+         (8, "zip", "peer"),
+         (9, "events_not_backwards_compatible", "event"),
+         (10, "const", "background_event"),                      -- `0u64`: background events are never written
+         (11, "highest_seen_timestamp", "last_node_announcement_serial"),   -- "we simply write the highest_seen_timestamp twice"
+         (13, "const", "pending_inbound_payment"),               -- `0 as u64`: no stateful inbound payments since 0.0.116
+         (14, "num_pending_outbounds_compat", "pending_outbound_payments_compat"),
+         (15, "pending_outbound_payment", "pending_outbound_payments_compat")]),
+      ("ChannelMonitor",
+        [(9, "txid", "outpoint"),
+         (10, "script_pubkey", "funding_script"),
+         (14, "redeem_script", "funding_redeemscript"),
+         (25, "prev_holder_commitment_tx", "prev_holder_signed_tx"),
+         (26, "write_legacy_holder_commitment_data", "current_holder_signed_tx"),
+         (31, "?", "pending_monitor_event"),                     -- count computed in a block (HolderForceClosedWithInfo written twice)
+         (35, "block_hash", "best_block"),
+         (36, "onchain_events_awaiting_threshold_conf", "waiting_threshold_conf"),
+         (37, "onchain_events_awaiting_threshold_conf", "waiting_threshold_conf")])] := by decide +kernel
+
+/-- wherever both sides state the integer / value type of a position (`as u64`, `let x: u64`, `U48`) the types are equal -/
+theorem positional_types_agree :
+    posAligned.map (fun o => (o.1, posTypeMismatches o.2.1 o.2.2)) =
+      [("FundedChannel", []), ("ChannelManager", []), ("ChannelMonitor", [])] := by decide +kernel
+
+/-- the compound steps (loops, `if` / `match`, `{…}`), with the number of syntactic stream accesses inside on the write and on the
+    read side, pinned: a write added to / dropped from a loop body without the matching read (or vice versa) changes a pair -/
+theorem positional_blocks_exact :
+    posAligned.map (fun o => (o.1, posBlocks o.2.1 o.2.2)) = [
+      ("FundedChannel",
+        [(2, "const", 1, 1), (4, "channel_state", 1, 1), (7, "shutdown_scriptpubkey", 2, 1), (13, "pending_inbound_htlc", 16, 13),
+         (15, "pending_outbound_htlc", 13, 10), (17, "holding_cell_htlc_update", 15, 10), (18, "resend_order", 2, 1),
+         (23, "monitor_pending_forward", 2, 2), (25, "monitor_pending_failure", 3, 3), (26, "is_outbound", 3, 1), (32, "const", 1, 4),
+         (39, "counterparty_selected_channel_reserve_satoshi", 1, 1), (43, "minimum_depth", 1, 1),
+         (44, "counterparty_forwarding_info", 5, 4)]),
+      ("ChannelManager",
+        [(2, "best_block", 2, 2), (3, "channel", 2, 2), (4, "forward", 4, 4), (6, "claimable_payment", 3, 3), (8, "zip", 2, 2),
+         (9, "events_not_backwards_compatible", 3, 2), (10, "const", 1, 4), (13, "const", 1, 3), (15, "pending_outbound_payment", 1, 1)]),
+      ("ChannelMonitor",
+        [(4, "broadcasted_holder_revokable_script", 5, 4), (6, "shutdown_script", 2, 1), (9, "txid", 2, 2),
+         (16, "their_cur_per_commitment_point", 5, 3), (20, "counterparty_claimable_outpoint", 4, 4),
+         (22, "counterparty_commitment_txn_on_chain", 2, 2), (24, "counterparty_hash_commitment_number", 2, 2),
+         (25, "prev_holder_commitment_tx", 3, 2), (26, "write_legacy_holder_commitment_data", 1, 1), (30, "payment_preimage", 1, 1),
+         (31, "?", 1, 1), (32, "pending_monitor_event", 4, 2), (34, "pending_event", 1, 1), (35, "block_hash", 2, 2),
+         (37, "onchain_events_awaiting_threshold_conf", 1, 1), (39, "outputs_to_watch", 4, 4)])] := by decide +kernel
+
+-- non-vacuity: swapping the two commitment numbers on the write side is seen at both positions
+example : posNameMismatches [("val", "counterparty_next_commitment_transaction_number", "", 1), ("val", "next_transaction_number", "", 1)]
+      [("val", "holder_commitment_next_transaction_number", "", 1), ("val", "counterparty_next_commitment_transaction_number", "", 1)]
+    = [(0, "counterparty_next_commitment_transaction_number", "holder_commitment_next_transaction_number"),
+       (1, "next_transaction_number", "counterparty_next_commitment_transaction_number")] := by decide
+example : mergeSteps [("val", "a", "", 1), ("val", "txid", "", 1), ("val", "index", "", 1), ("val", "b", "", 1)] [(1, 2)]
+    = [("val", "a", "", 1), ("blk", "txid", "", 2), ("val", "b", "", 1)] := by decide
 
 end Ldk.C12
